@@ -281,6 +281,10 @@ TAUTOMER_INPUTS = ['N1C=CC2=NC=NC2=C1', 'C1=CC2=NC=CC2=CN1', 'N1C=CC2=CC=NC2=C1'
                    'C1=CC2=CNC3=C4N=NC=C4N=C3C2=C1', 'C1=CC2=NC3=C4NC=NC=C4C=C3C2=C1', 'C1=CNC2=C3C(=CC2=C1)C=C1C=NC=C13']
 
 KEKULE_SPELLED = [
+    # an all-sp2 four-membered ring with its own double bond next to a ring thiele() aromatises (only the biphenylene-type
+    # four-ring, all atoms aromatic, may be reset to single bonds)
+    'O=C1C(NC)=C(Nc2ccccc2)C1=O', 'C1=Cc2ccccc12', 'C1=CC=C1c1ccccc1', 'C1=CC2=CC=CC=C12', 'C1=CC=C1C1=CC=CC=C1', 'O=C1C(=O)C(C2=CC=CC=C2)=C1O', 'C1=CC(=C1)C1=CC=NC=C1',
+    'C1=CC2=C1C=CN2', 'c1ccc2c(c1)C1=CC=C21',
     # two two-coordinate ring hetero atoms whose hydrogen count is KNOWN (0): no enumerated form may read them with a hydrogen
     'B1=CC=BC=C1', 'B1=CC=BC2=CC=CC=C12', 'c1c[b]cc[b]1', '[b]1ccc[b]c1', 'P1=CC=PC=C1', 'N1=CC=NC=C1', 'c1c[n]cc[n]1', 'B1=CC=NC=C1', 'B1=CN=BC=C1',
     # Kekule spellings that thiele aromatises
@@ -774,6 +778,17 @@ class Pipe:
         if [x[:5] for x in s0[0]] != [x[:5] for x in s1[0]] or [(n, [q for q, _ in nb]) for n, nb in s0[1]] != [(n, [q for q, _ in nb]) for n, nb in s1[1]]:
             self.bad(True, f'thiele-changes-molecule:{smi}', 'thiele() changed atoms, isotopes, charges, radicals or connectivity', label, s1, s0, 'snapshot comparison', tcode)
         thchg = self.h_changes('thiele', k, a, label, tcode, True)
+        if not thchg:
+            # bond level: thiele() only writes aromatic bonds; the one exception is the biphenylene reset (a bond of an all-sp2
+            # four-membered ring between atoms that are aromatic in the result becomes single).  (With a moved hydrogen the
+            # search re-writes single / double bonds along its path: that is the recorded finding.)
+            arom_atoms = {n for n, nb in a._bonds.items() if any(int(bd) == 4 for bd in nb.values())}
+            for n, nb in k._bonds.items():
+                for q, bd in nb.items():
+                    o0, o1 = int(bd), int(a._bonds[n][q])
+                    if n < q and o0 != o1 and o1 != 4 and not (o0 == 2 and o1 == 1 and n in arom_atoms and q in arom_atoms):
+                        self.bad(True, f'thiele-rewrites-non-aromatic-bond:{smi}', f'thiele() changed the order of bond {n}-{q} from {o0} to {o1} (not to aromatic, and not '
+                                 'a bond between two aromatic atoms)', label, str(a), str(k), 'bond orders before / after', tcode)
         if coq_thiele:
             cases.append((f'{"thiele_rel_noh" if thchg else "thiele_rel"} k{i} a{i}', ('thiele_rel', 'thiele()', label, list(m0._atoms)), ('thiele', label, tcode)))
         ck.case(('thiele', tag, label), nontrivial=has_arom(a))
